@@ -120,6 +120,10 @@ fn run(input: RunInput) -> ScenFuture {
             };
             let mut handler = "none";
             if let Some(s) = &seen {
+                // the deadline machinery must not rewrite what the caller sent
+                if s.headers.get("timeout") != hdr.as_ref() {
+                    w.violate("timeout-header-rewritten-in-transit", format!("hdr={class}"), format!("call {i}: caller sent timeout header {hdr:?}, the handler saw {:?} (outbound default {d_out:?} ms)", s.headers.get("timeout")));
+                }
                 handler = if s.completed_at_ns.is_some() { "completed" } else if s.dropped_at_ns.is_some() { "dropped" } else { "running" };
             }
             w.event(format!("{class}:{caller}:{handler}"));
